@@ -145,7 +145,102 @@ Definition i_running_task_token (s : state) : bool :=
                                         | _ => false end) (w_queue s))
             (combine (seqn (length (s_tasks st))) (s_tasks st))).
 
+(* ---- the candidate inductive invariant of the jump-free / restart-free fragment ---- *)
+Definition active (tk : task) : bool := task_is RUNNING tk || task_is SUSPENDED tk || task_is PAUSED tk.
+Definition live_stage (st : stage) : bool :=
+  status_eqb (s_status st) RUNNING || status_eqb (s_status st) SUSPENDED || status_eqb (s_status st) PAUSED.
+
+Definition for_msgs (s : state) (p : qrow -> bool) : bool := forallb (fun r => negb (unprocessed s r) || p r) (w_queue s).
+
+(* C: an unprocessed StartTask for a NOT_STARTED task: stage RUNNING, no active task *)
+Definition j_start_task (s : state) : bool :=
+  for_msgs s (fun r => match q_msg r with
+    | MStartTask i t =>
+        match get_stage s i with
+        | Some st => match nth_error (s_tasks st) t with
+                     | Some tk => negb (task_is NOT_STARTED tk) ||
+                                  (status_eqb (s_status st) RUNNING && negb (existsb active (s_tasks st)))
+                     | None => true end
+        | None => true end
+    | _ => true end).
+
+(* D: an unprocessed CompleteStage for a live stage: every task has left NOT_STARTED and is not active *)
+Definition j_complete_stage (s : state) : bool :=
+  for_msgs s (fun r => match q_msg r with
+    | MCompleteStage i =>
+        match get_stage s i with
+        | Some st => negb (live_stage st) || negb (existsb (fun x => task_is NOT_STARTED x || active x) (s_tasks st))
+        | None => true end
+    | _ => true end).
+
+(* E: at most one active task per stage *)
+Definition j_one_active (s : state) : bool :=
+  all_stages s (fun _ st => length (filter active (s_tasks st)) <=? 1).
+
+(* F: at most one unprocessed StartTask with a NOT_STARTED target per stage (same task allowed twice) *)
+Definition start_task_targets (s : state) (i : nat) : list nat :=
+  flat_map (fun r => if unprocessed s r then
+                       match q_msg r with
+                       | MStartTask a t =>
+                           if a =? i then
+                             match get_stage s i with
+                             | Some st => match nth_error (s_tasks st) t with
+                                          | Some tk => if task_is NOT_STARTED tk then [t] else []
+                                          | None => [] end
+                             | None => [] end
+                           else []
+                       | _ => [] end
+                     else []) (w_queue s).
+Definition j_unique_start_task (s : state) : bool :=
+  all_stages s (fun i _ => match start_task_targets s i with
+                           | [] => true
+                           | t :: r => forallb (Nat.eqb t) r end).
+
+(* G: an unprocessed StartTask(i,t): every earlier task has left NOT_STARTED *)
+Definition j_start_task_prefix (s : state) : bool :=
+  for_msgs s (fun r => match q_msg r with
+    | MStartTask i t =>
+        match get_stage s i with
+        | Some st => forallb (fun x => negb (task_is NOT_STARTED x)) (firstn t (s_tasks st))
+        | None => true end
+    | _ => true end).
+
+(* H: the tasks that have left NOT_STARTED form a prefix *)
+Fixpoint prefix_started (seen_ns : bool) (ts : list task) : bool :=
+  match ts with
+  | [] => true
+  | tk :: r => if task_is NOT_STARTED tk then prefix_started true r
+               else negb seen_ns && prefix_started seen_ns r
+  end.
+Definition j_prefix (s : state) : bool := all_stages s (fun _ st => prefix_started false (s_tasks st)).
+
+(* I: a SUSPENDED / PAUSED task lives in a SUSPENDED / PAUSED (or completed) stage *)
+Definition j_waiting_task (s : state) : bool :=
+  all_stages s (fun _ st =>
+    (negb (existsb (task_is SUSPENDED) (s_tasks st)) || status_eqb (s_status st) SUSPENDED || is_complete (s_status st)) &&
+    (negb (existsb (task_is PAUSED) (s_tasks st)) || status_eqb (s_status st) PAUSED || is_complete (s_status st))).
+
+(* P: plan-pending: RUNNING, nothing of the stage started, no task-level message yet *)
+Definition j_plan_pending (s : state) : bool :=
+  all_stages s (fun i st =>
+    negb (s_plan_pending st) ||
+    (status_eqb (s_status st) RUNNING && forallb (task_is NOT_STARTED) (s_tasks st) &&
+     for_msgs s (fun r => match q_msg r with
+                          | MStartTask a _ | MRunTask a _ | MCompleteTask a _ _ | MPauseTask a _ | MCompleteStage a => negb (a =? i)
+                          | _ => true end))).
+
+(* B2 with PauseTask *)
+Definition j_not_started_no_msgs (s : state) : bool :=
+  for_msgs s (fun r => match q_msg r with
+    | MStartTask i _ | MRunTask i _ | MCompleteTask i _ _ | MPauseTask i _ | MCompleteStage i =>
+        match get_stage s i with Some st => negb (status_eqb (s_status st) NOT_STARTED) | None => true end
+    | _ => true end).
+
+Definition inv_jf (s : state) : list bool :=
+  [i_running_task s; i_not_started_stage s; j_not_started_no_msgs s; j_start_task s; j_complete_stage s; j_one_active s;
+   j_unique_start_task s; j_start_task_prefix s; j_prefix s; j_waiting_task s; j_plan_pending s].
+
 Definition inv_clauses (s : state) : list bool :=
   [i_running_task s; i_not_started_stage s; i_suspended s; i_start_task_msg s; i_sequential s; i_one_active s;
    i_complete_stage s; i_ids s; i_started_flag s; i_mutex s; i_choice s; i_plan_pending s; i_wf_not_started s;
-   i_start_task_exclusive s; i_complete_stage_msg s; i_not_started_no_msgs s; i_running_task_token s].
+   i_start_task_exclusive s; i_complete_stage_msg s; i_not_started_no_msgs s; i_running_task_token s] ++ inv_jf s.
